@@ -239,7 +239,7 @@ Proof.
     destruct (uf_exit u && (lenN b2 =? 0)) eqn:Hex.
     + (* the RDATA is exhausted: unpack() returns early *)
       apply andb_prop in Hex. destruct Hex as [Hex1 Hex].
-      assert (Eb2 : b2 = []) by (apply lenN_0; lia). subst b2.
+      assert (Eb2 : b2 = []) by (apply lenN_0; clear - Hex; lia). subst b2.
       exists (b1 ++ []), (combine names vals). split; [now rewrite E2, E1, app_assoc|]. split; [exact Hk2|].
       split; [exact Hzero|]. split; [discriminate|].
       split.
@@ -255,7 +255,7 @@ Proof.
       destruct (Hun (pre ++ b1) Hpre1 Hl1) as [_ Hl2]. rewrite app_nil_r in Hl2.
       split; [|rewrite app_nil_r; exact Hl2].
       rewrite Hst, Hex1. rewrite !lenN_app, lenN_nil.
-      btrue (lenN pre + lenN b1 =? lenN pre + (lenN b1 + 0)). cbn [andb]. f_equal. f_equal. lia.
+      rewrite N.add_0_r, N.eqb_refl. cbn [andb]. f_equal. f_equal. clear. lia.
     + exists (b1 ++ b2), (combine names vals ++ ext). split; [now rewrite E2, E1, app_assoc|].
       split; [exact Hk2|]. split; [exact Hzero|]. split; [discriminate|].
       split. { rewrite app_assoc. constructor; [|exact Hsame]. cbn [fst snd]. apply Hthis. }
@@ -265,9 +265,9 @@ Proof.
       rewrite (app_assoc pre b1 b2). split; [|exact Hl2].
       rewrite <- (app_assoc pre b1 b2), Hst.
       assert (Hexit : uf_exit u && (lenN pre + lenN b1 =? lenN (pre ++ b1 ++ b2)) = false).
-      { rewrite !lenN_app. destruct (uf_exit u); [|reflexivity]. cbn [andb] in *. lia. }
+      { rewrite !lenN_app. destruct (uf_exit u); [|reflexivity]. cbn [andb] in *. clear - Hex. lia. }
       rewrite Hexit. replace (lenN pre + lenN b1) with (lenN (pre ++ b1)) by apply lenN_app.
-      rewrite (app_assoc pre b1 b2), Hun1. rewrite <- app_assoc. f_equal. f_equal. rewrite !lenN_app. lia.
+      rewrite (app_assoc pre b1 b2), Hun1. rewrite <- app_assoc. f_equal. f_equal. rewrite !lenN_app. clear. lia.
 Qed.
 
 (* ================= a record ================= *)
